@@ -48,3 +48,82 @@ def _(gene, profile, coverage, solver, debug):
                                                            gene.cn_configs[c].kind == CNConfigType.DEFAULT and result[0].solution[c] == ncopies))),
             label="default-copies")
     modifies()
+
+
+def admitted(gene, cn_configs, fusion_support, max_cn, c):
+    """C03: structure candidates; with long-read fusion support values, weak fusions (support below
+    1/(2*max copy number)) are filtered out, the default and the deletion configuration always stay."""
+    return c in cn_configs and (fusion_support is None or not fusion_support or c == "1"
+                                or (gene.deletion_allele() is not None and c == gene.deletion_allele())
+                                or (c in fusion_support and fusion_support[c] >= 1 / (2 * max_cn)))
+
+
+def has_pseudo_slots(gene):
+    return len(gene.regions) > 1 and gene.deletion_allele() is not None
+
+
+def is_slot(gene, cn_configs, fusion_support, max_cn, c, i):
+    """two complete slots (0, -1) per admitted configuration, pseudogene-free extra copies (1..max_cn-1) of
+    default-kind configurations, free pseudogene slots PSEUDO 1..max_cn"""
+    return ((admitted(gene, cn_configs, fusion_support, max_cn, c)
+             and (i == 0 or i == -1 or (cn_configs[c].kind == CNConfigType.DEFAULT and 1 <= i and i < max_cn)))
+            or (c == "PSEUDO" and has_pseudo_slots(gene) and 1 <= i and i <= max_cn))
+
+
+def slot_cn(gene, cn_configs, c, i, g, r):
+    """copies of region r of gene copy g (0 = gene, 1 = pseudogene) that slot (c, i) contributes"""
+    return (cn_configs[gene.deletion_allele()].cn[g][r] if c == "PSEUDO"
+            else (cn_configs[c].cn[g][r] - (1 if (i >= 1 and g >= 1) else 0)))
+
+
+@contract("aldy.cn.solve_cn_model", native=False)
+def _(gene, profile, cn_configs, max_cn, region_coverage, solver, debug, fusion_support):
+    types(cn_configs="Dict[str, CNConfig]", max_cn="int", region_coverage="Dict[str, Tuple[float, float]]",
+          solver="str", debug="Optional[str]", fusion_support="Optional[Dict[str, float]]")
+    requires(max_cn >= 1, len(gene.regions) >= 1, len(gene.unique_regions) > 0)
+    requires("PSEUDO" not in cn_configs)
+    # candidate configurations are (copies of) catalogue configurations with one table per gene copy
+    requires(forall(lambda c=str: implies(c in cn_configs, c in gene.cn_configs and len(cn_configs[c].cn) == len(gene.regions)
+                                          and cn_configs[c].kind == gene.cn_configs[c].kind)))
+    requires(implies(gene.deletion_allele() is not None, gene.deletion_allele() in cn_configs))
+    requires(forall(lambda r=str: implies(r in region_coverage, region_coverage[r][0] >= 0 and region_coverage[r][1] >= 0)))
+    requires(forall(lambda c=str, r=str: implies(c in cn_configs and r in region_coverage and len(gene.regions) > 1,
+                                                 (r in cn_configs[c].cn[0]) == (r in cn_configs[c].cn[1]))))
+    cut_after("aldy.lpinterface.CBC.setObjective")
+    nreg = len(gene.unique_regions)
+    dele = gene.deletion_allele()
+
+    # ------------------------------------------------------------- the specified model (C03)
+    slots = ({(c, i) for c in cn_configs for i in range(-1, max_cn)
+              if is_slot(gene, cn_configs, fusion_support, max_cn, c, i)}
+             | {("PSEUDO", i) for i in range(1, max_cn + 1) if has_pseudo_slots(gene)})
+    for s in slots:
+        newvar(None, "B", None, None, f"CN_{s[0]}_{s[1]}")
+        # a whole-gene deletion on the second haplotype excludes everything else
+        if dele is not None and s[0] != dele:
+            family("CDEL_{}_{}", newvar_at("CN_{}_{}", s[0], s[1]) + newvar_at("CN_{}_{}", dele, -1) <= 1)
+        # slot order: the second complete slot needs the first; extra copies are used in index order from 2
+        if s[1] == -1:
+            family("CORD_{}_{}", newvar_at("CN_{}_{}", s[0], s[1]) <= newvar_at("CN_{}_{}", s[0], 0))
+        elif s[1] > 1:
+            family("CORD_{}_{}", newvar_at("CN_{}_{}", s[0], s[1]) <= newvar_at("CN_{}_{}", s[0], s[1] - 1))
+    # exactly two complete haplotype configurations
+    family("CDIPLO", 0.0 + sum(newvar_at("CN_{}_{}", s[0], s[1]) for s in slots if s[1] <= 0) <= 2)
+    family("CDIPLO", 0.0 + sum(newvar_at("CN_{}_{}", s[0], s[1]) for s in slots if s[1] <= 0) >= 2)
+    for r in region_coverage:
+        if r in gene.unique_regions:
+            eg = newvar(None, "C", -profile.cn_max, profile.cn_max, f"EG_{r}")
+            e = newvar(None, "C", -profile.cn_max, profile.cn_max, f"E_{r}")
+            d0 = region_coverage[r][0]
+            d1 = region_coverage[r][1]
+            k = (d0 if d0 >= d1 else d1) + 1
+            gene_fit = 0.0 + sum(slot_cn(gene, cn_configs, s[0], s[1], 0, r) * newvar_at("CN_{}_{}", s[0], s[1])
+                                 for s in slots if r in cn_configs[gene.deletion_allele() if s[0] == "PSEUDO" else s[0]].cn[0])
+            diff_fit = 0.0 + sum((slot_cn(gene, cn_configs, s[0], s[1], 0, r)
+                                  - (slot_cn(gene, cn_configs, s[0], s[1], 1, r) if len(gene.regions) > 1 else 0))
+                                 * newvar_at("CN_{}_{}", s[0], s[1])
+                                 for s in slots if r in cn_configs[gene.deletion_allele() if s[0] == "PSEUDO" else s[0]].cn[0])
+            family("CG_COV_{}", gene_fit + eg <= d0)
+            family("CG_COV_{}", gene_fit + eg >= d0)
+            family("C_COV_{}", diff_fit / k + e <= (d0 - d1) / k)
+            family("C_COV_{}", diff_fit / k + e >= (d0 - d1) / k)
